@@ -134,26 +134,29 @@ impl<C: SymBridge> Lab<C> for SymLab<C> {
         }
         let dfrom = (mark >> 32) as usize;
         let ds = symcore::decisions_since(dfrom);
-        // the rejecting comparison: last non-zero-test comparison that came out "different"
-        // (verification equations are often written as `residual == identity`, so zero-tests count)
-        let rej = ds.iter().rev().find(|d| matches!(d.outcome, Outcome::AssumedNe | Outcome::Forked(false) | Outcome::Infeasible | Outcome::KnownNe));
-        match rej {
-            None => symcore::check(true, &format!("{what}: rejected on structure")),
-            Some(d) if d.outcome == Outcome::Infeasible => {
-                let _ = d;
-                symcore::with(|c| {
+        // Every generic-position assumption ("these two values differ") the real code's
+        // comparisons needed during this call must be justified by rule GR. Comparisons the
+        // solver refuted outright (EX), forks (both sides explored), stated preconditions and
+        // comparisons settled earlier on the path need no further argument.
+        let assumed: Vec<&symcore::Decision> = ds.iter().filter(|d| d.outcome == Outcome::AssumedNe).collect();
+        if assumed.is_empty() {
+            let refuted = ds.iter().any(|d| d.outcome == Outcome::Infeasible);
+            return symcore::with(|c| {
+                if refuted {
                     c.record("EX", what, true, "the rejecting comparison inside the real code was refuted under PC (unit multiple of a non-zero quantity; identity proved by the solver)".into());
-                    true
-                })
-            }
-            Some(d) => {
-                let (a, b) = (S(d.a), S(d.b));
-                let resid = a - b;
-                // first try exact rejection (EX), quietly; else GR
-                let adv = self.adv.clone();
-                symcore::prove_gr(resid, 0, &adv, what).is_some()
-            }
+                } else {
+                    c.record("ST", what, true, "rejected on structure, on a stated precondition, or by a comparison settled earlier on this path".into());
+                }
+                true
+            });
         }
+        let adv = self.adv.clone();
+        let mut ok = true;
+        for d in assumed {
+            let resid = S(d.a) - S(d.b);
+            ok &= symcore::prove_gr(resid, 0, &adv, what).is_some();
+        }
+        ok
     }
     fn ne_generic_s(&mut self, a: Scalar<C>, b: Scalar<C>, what: &str) -> bool {
         let resid = C::s_out(a) - C::s_out(b);
@@ -218,11 +221,48 @@ impl<C: SymBridge> Lab<C> for SymLab<C> {
         symcore::with(|c| c.rng_log.get(k).map(|x| x.1)).map(|v| C::s_in(S(v)))
     }
     fn draw_bytes(&mut self, k: usize) -> Option<Vec<u8>> {
-        symcore::with(|c| c.rng_log.get(k).copied()).map(|(len, v)| {
+        symcore::with(|c| {
+            let (len, v) = c.rng_log.get(k).copied()?;
             let mut out = vec![0u8; len];
-            out[..32].copy_from_slice(&symcore::block32(symcore::TAG_R, v));
-            out
+            for (j, ch) in out.chunks_mut(32).enumerate() {
+                if ch.len() < 32 {
+                    break;
+                }
+                let vj = if j == 0 { v } else { c.var(&format!("rng#{k}.{j}")) };
+                ch.copy_from_slice(&symcore::block32(symcore::TAG_R, vj));
+            }
+            Some(out)
         })
+    }
+    fn all_distinct_generic(&mut self, xs: &[Scalar<C>], what: &str) -> bool {
+        let hs: Vec<S> = xs.iter().map(|x| C::s_out(*x)).collect();
+        let all_hash_atoms = symcore::with(|c| hs.iter().all(|h| matches!(c.nodes[h.0 as usize], symcore::Node::Uf(..))));
+        if all_hash_atoms {
+            // distinct applications of an uninterpreted hash differ except with probability 1/q
+            // (rule GR with slope 1 in either output); identical applications are equal
+            let mut seen = std::collections::HashMap::new();
+            for (i, h) in hs.iter().enumerate() {
+                if let Some(j) = seen.insert(h.0, i) {
+                    return symcore::with(|c| {
+                        let det = format!("values number {j} and {i} are the same hash application {}", c.describe(h.0, 2));
+                        c.record("GR", what, false, det.clone());
+                        c.fail(what, det, false);
+                        false
+                    });
+                }
+            }
+            return symcore::with(|c| {
+                c.record("GR", what, true, format!("{} pairwise distinct hash applications", hs.len()));
+                true
+            });
+        }
+        let mut ok = true;
+        for i in 0..xs.len() {
+            for j in (i + 1)..xs.len() {
+                ok &= self.ne_generic_s(xs[i], xs[j], what);
+            }
+        }
+        ok
     }
     fn eq_bytes(&mut self, a: &[u8], b: &[u8], what: &str) -> bool {
         symcore::with(|c| {
